@@ -143,7 +143,9 @@ fn print_macro(b: &Block, idx: usize) -> String {
             DefaultValues::None => format!("default({}), ", sp(s)),
             DefaultValues::Inline(f) => format!("default({}, {{ {} }}), ", sp(s), f.iter().map(|(p, v)| format!("{}: {}", PROP_NAMES[*p], crate::c15::field_text(*p, *v))).collect::<Vec<_>>().join(", ")),
             // an expression "is used as is", however it is spelled: a constant, a struct literal with a
-            // functional-update base, a function call (a `{ ... }` block would read as inline fields)
+            // functional-update base, a call of a function that returns something else every time it is called (the
+            // expression is evaluated once: `default` keyframes repeat the INITIAL values); a `{ ... }` block would
+            // read as inline fields
             DefaultValues::Expr(v) => match v.d % 3 {
                 1 => format!("default({}, Q {{ a: {}, ..DV_{idx} }}), ", sp(s), f32_lit(v.a)),
                 2 => format!("default({}, dv_{idx}()), ", sp(s)),
@@ -272,7 +274,7 @@ fn program(cases: &[C16Case]) -> (String, Vec<(u32, u32)>) {
     let mut line = src.lines().count() as u32 + 1;
     for (i, c) in cases.iter().enumerate() {
         if let Some((_, DefaultValues::Expr(v))) = &c.block.default {
-            src += &format!("const DV_{i}: Q = {}; fn dv_{i}() -> Q {{ DV_{i} }}\n", vals_expr(v));
+            src += &format!("const DV_{i}: Q = {}; fn dv_{i}() -> Q {{ static CALLS: std::sync::atomic::AtomicU32 = std::sync::atomic::AtomicU32::new(0); let n = CALLS.fetch_add(1, std::sync::atomic::Ordering::SeqCst); Q {{ a: DV_{i}.a + 64.0 * n as f32, ..DV_{i} }} }}\n", vals_expr(v));
             line += 1;
         }
         src += &format!("fn m_{i}() -> Anim {{ {} }}\n", print_macro(&c.block, i));
